@@ -185,11 +185,13 @@ def python_level(T, mod, col, stats):
         _reject(stats, col, "py_dir1", e)
 
     # ---- direction 2: every value x built with the constructors: to_bits, from_bits(to_bits(x)) == x ---
+    built = {}
     try:
         for b in range(1 << w):
             exp = [L.field(b, v.lo, v.w) for v in vs]
             P = [L.field(b, p[0], p[1]) for p in ps]
             x = mod.build(P)
+            built[b] = x
             sx = x.bits() if is_ser else std.to_bits(x)
             stats["py_evals"] += 1
             if sx.width != w:
@@ -210,7 +212,9 @@ def python_level(T, mod, col, stats):
         for b in range(1 << w):
             exp = [L.field(b, v.lo, v.w) for v in vs]
             P = [L.field(b, p[0], p[1]) for p in ps]
-            x = mod.build(P)
+            x = built.get(b)
+            if x is None:
+                x = mod.build(P)
             if is_ser:
                 # Serialized[T](x).value() is the documented from_bits[T](to_bits(x))
                 y = None
@@ -404,13 +408,21 @@ def check_type(T, qualifiers, do_ct=True):
     return status, stats, list(col.items.values())
 
 
+BULK = ("L2.rec2", "L2.rec3", "L2.inherit")      # the quadratic strata of nesting 2
+
+
 def qualifiers_for(stratum, T, thorough):
     """which from_bits qualifiers the run-time wrapper is built with"""
     if thorough:
-        return ("value", "signal", "temporary", "ref") if L.width(T) <= 8 else ("value", "signal")
-    if stratum in ("L2.rec2", "L2.rec3", "L2.inherit"):
+        return ("value", "signal", "temporary", "ref") if L.width(T) <= 7 else ("value", "signal")
+    if stratum in BULK:
         return ("value",)
     return ("value", "signal")
+
+
+def ct_for(stratum, T, thorough):
+    """constants-in-context wrapper: everywhere in thorough; quick skips it for the quadratic nesting-2 strata"""
+    return thorough or stratum not in BULK
 
 
 def work(task):
@@ -422,7 +434,7 @@ def work(task):
     for stratum, T in types:
         buf = io.StringIO()
         with contextlib.redirect_stdout(buf):   # std exception infos are printed by cohdl
-            status, stats, viols = check_type(T, qualifiers_for(stratum, T, thorough), do_ct)
+            status, stats, viols = check_type(T, qualifiers_for(stratum, T, thorough), do_ct and ct_for(stratum, T, thorough))
         out.append({"stratum": stratum, "T": T, "status": status, "stats": dict(stats), "viols": viols})
     return out
 
@@ -485,8 +497,9 @@ def main(run: Run):
     nbf = c.get("stratum_L1.bf", 0)
     if nbf and (c.get("bw_compiled", 0) + len(run.violations)) * 10 < nbf * 8:
         run.tool_error(f"vacuous: bit field write wrapper compiled for {c.get('bw_compiled', 0)} of {nbf} bit fields")
-    if not only and stride == 1 and (c.get("ct_compiled", 0) + len(run.violations)) * 10 < n * 8:
-        run.tool_error(f"vacuous: constants-in-context wrapper compiled for {c.get('ct_compiled', 0)} of {n}")
+    n_ct = sum(1 for s, t in fam if ct_for(s, t, run.thorough))
+    if (c.get("ct_compiled", 0) + len(run.violations)) * 10 < n_ct * 8:
+        run.tool_error(f"vacuous: constants-in-context wrapper compiled for {c.get('ct_compiled', 0)} of {n_ct}")
     if c.get("py_ctor_mismatch", 0):
         run.note(f"constructors that did not store the given value (outside C17): {c['py_ctor_mismatch']}")
     run.assume("vsim (own VHDL-2008 subset simulator) implements IEEE 1076/numeric_std semantics")
